@@ -837,6 +837,8 @@ class MemoryPathIO(AbstractPathIO):
             snode = self.get_node(source)
             if None in (snode, dparent):
                 raise FileNotFoundError
+            if self._absolute(source) in self._absolute(destination).parents:
+                raise OSError("Can not move path into itself")
             for i, node in enumerate(sparent.content):
                 if node.name == source.name:
                     sparent.content.pop(i)
